@@ -825,14 +825,15 @@ def calls_neutralise(case, keys):
                 call['kwargs'] = map_strings(call['kwargs'], f)
                 call['channels'] = map_strings(call['channels'], f)
         elif key == K_INIT:
-            c['behaviour'] = {('init_' if n == 'init' else n): b for n, b in c.get('behaviour', {}).items()}
+            c['behaviour'] = {('inix' if n == 'init' else n): b for n, b in c.get('behaviour', {}).items()}
             for call in c['calls']:
                 if call['name'] == 'init':
-                    call['name'] = 'init_'
+                    call['name'] = 'inix'   # same length: chunk boundaries stay where they were
         elif key in (K_SHARED, K_BCAST):
-            # one call in flight at a time
-            for n, call in enumerate(c['calls']):
-                call['wave'] = call.get('wave', 0) * 1000 + n
+            # one connection at a time: calls that were in flight together on *different* connections are separated, calls on
+            # the same connection stay together (each link's byte streams and chunk boundaries remain what they were)
+            for call in c['calls']:
+                call['wave'] = call.get('wave', 0) * 1000 + int(call['from'][1:] or 0)
     return c
 
 
